@@ -100,8 +100,8 @@ LAYER_I['C17'] = ('N', ['bid128_nextup', 'bid128_nextdown'])
 LAYER_I['C08'] = ('R', ['bid128_round_integral_zero', 'bid128_round_integral_negative', 'bid128_round_integral_positive', 'bid128_round_integral_nearest_even', 'bid128_round_integral_nearest_away'])
 for _k, _v in LAYER_I.items(): PROPS[_k]['layerI'] = _v
 # partial theorems (a stated sub-domain only) are obligations of the thorough tier
-PROPS['C17']['layerI_thorough'] = ('NP', ['bid128_nextafter', 'bid128_nexttoward'])
+PROPS['C17']['layerI_thorough'] = ('NA', ['bid128_nextafter', 'bid128_nexttoward'])     # complete theorems (acceptance list m_next_after), 5-7 minutes
 PROPS['C06']['layerI_thorough'] = ('J', ['bid128_to_int32_rnint', 'bid128_to_int32_rninta'])     # complete theorems, 3-4 min each: thorough tier
 PROPS['C16']['layerI_thorough'] = ('M', ['bid128_minnum', 'bid128_maxnum', 'bid128_minnum_mag', 'bid128_maxnum_mag'])   # complete theorems, 12 CPU-minutes
 PROPS['C08']['layerI_thorough'] = ('RN,RP', ['bid128_nearbyint', 'bid128_round_integral_exact'])   # nearbyint complete (6 min); exact partial: special / zero / exponent >= 0 / exponent <= -35 operands
-PARTIAL_LAYER_I = {'bid128_nextafter', 'bid128_nexttoward', 'bid128_round_integral_exact'}
+PARTIAL_LAYER_I = {'bid128_round_integral_exact'}
